@@ -1,6 +1,7 @@
 import CssVerif.Lemmas.Struct
 import CssVerif.Lemmas.StructMedia
 import CssVerif.Lemmas.StructCss
+import CssVerif.Lemmas.StructText
 /-!
 # C04 — syntax errors are contained: only the malformed construct is dropped
 
@@ -445,6 +446,95 @@ example : ((findCut [Ex.idt "a", Ex.lbrace, Ex.rbrace, ⟨.mediaSym, cps "@media
       Ex.idt "b", Ex.lbrace, Ex.rbrace, ⟨.mediaSym, cps "@media", 0⟩, Ex.sp, Ex.idt "print", Ex.lbrace,
       Ex.idt "c", Ex.lbrace, Ex.idt "d", Ex.colon, Ex.idt "e", Ex.semi, Ex.idt "f", Ex.eof]).map
       fun c => (c.ok, c.o.shape, c.s₁.length)) = some (true, "media>media>style", 1) := by decide
+
+/-! ## T4.5 text level: composition with the tokenizer model of C05
+
+`sheetToks text doC` (`Lemmas/StructText.lean`): the token list `parseString(text)` hands to the sheet
+dispatcher — the yielded tokens of `Tok.tokenize text true doC` (C05's model of `tokenize2.py`), projected to
+(type, value).  "Constructs left open at the end of the input are closed there": the tokenizer closes an open
+comment / string / `url(` inside the LAST token and appends exactly one EOF token (C05 T5.1, `found_is_span`),
+the structure level closes open blocks at that EOF token (T4.4). -/
+
+/-- T4.5 (domain): for EVERY text the token list is `body ++ [eof]` with exactly one EOF token, last — the
+EOF hypotheses of all T4.4 theorems hold for every real input (from C05's totality / `eof_once` argument). -/
+theorem text_tokens_domain (text : Cps) (doC : Bool) :
+    ∃ body eof, sheetToks text doC = body ++ [eof] ∧ eof.typ = .eof ∧ noEof body = true :=
+  let ⟨b, e, h1, h2, h3, _⟩ := sheetToks_shape text doC
+  ⟨b, e, h1, h2, h3⟩
+
+/-- T4.5 (a cut in the token list is a cut in the text): the tokenizer's steps tile the text (C05 T5.2), so
+the steps behind any prefix of the token list consumed exactly a prefix of the text. -/
+theorem token_cut_is_text_cut (text : Cps) (doC : Bool) (a b : List CssVerif.Tok.Item)
+    (h : (CssVerif.Tok.tokenize text true doC).items = a ++ b) :
+    text = CssVerif.Tok.spans a ++ CssVerif.Tok.spans b :=
+  items_split_text text doC a b h
+
+/-- T4.4 + T4.5, `@media` rule open at the end of a TEXT: if the tokens of `text` are complete statements
+`s₁`, then `@media mq {`, complete units `m₁` and an unfinished rest `junk` — no hypothesis about EOF: the
+last token is the tokenizer's EOF and there is no other — the parsed sheet has the rules of `s₁` and the media
+rule, closed, with exactly the rules of `m₁` and then what the rest yields. -/
+theorem text_truncated_media_rule (O : Oracle) (M : List Cps) (text : Cps) (doC : Bool) (s₁ : List Tok)
+    (at_ : Tok) (mq : List Tok) (lb : Tok) (m₁ junk : List Tok) (e : Tok) (stk : List K)
+    (ht : sheetToks text doC = s₁ ++ at_ :: (mq ++ lb :: ((m₁ ++ junk) ++ [e])))
+    (hs₁ : StmtSeq s₁) (hat : at_.typ = .mediaSym) (hv : normalize at_.val = atMedia) (hs : MqShape mq)
+    (hl : lb.val = vLBrace) (hlt : lb.typ = .char) (hm : MediaSeq m₁)
+    (hx : nest [] (m₁ ++ junk) = some stk) :
+    (sheetLoop O M {} (sheetToks text doC)).rules =
+      (sheetLoop O M {} s₁).rules ++
+        [if O.mediaOk mq then
+          Rule.media (some (mq, none))
+            (mediaRules O (sheetLoop O M {} s₁).nsmap m₁
+              ++ mediaRules O (sheetLoop O M {} s₁).nsmap (junk ++ [e]))
+         else Rule.media none []] := by
+  have hsplit : sheetToks text doC = (s₁ ++ at_ :: (mq ++ lb :: (m₁ ++ junk))) ++ [e] := by
+    rw [ht]; simp
+  obtain ⟨he, hne⟩ := sheetToks_open text doC _ e hsplit
+  have hxe : noEof (m₁ ++ junk) = true := by
+    simp only [noEof, List.all_append, List.all_cons, Bool.and_eq_true] at hne ⊢
+    exact hne.2.2.2.2
+  rw [ht]
+  exact truncated_media_rule O M s₁ at_ mq lb m₁ junk e stk hs₁ hat hv hs hl hlt hm hx hxe he
+
+/-- T4.4 + T4.5, certified form at text level: a checked certificate for the token list of ANY text predicts
+the rule list of `parseString(text)` in the composed model (tokenizer model, then structure model). -/
+theorem text_truncation_certified (O : Oracle) (M : List Cps) (text : Cps) (doC : Bool) (c : Cut)
+    (hc : c.toks = sheetToks text doC) (hok : c.ok = true) :
+    (sheetLoop O M {} (sheetToks text doC)).rules = c.predict O M := by
+  rw [← hc]; exact Cut.predict_sound O M c hok
+
+/-- `_partial` — T4.5, the cut itself.  Full statement wanted by the property:
+
+    text = a ++ b, `pre` = the tokens of `a ++ b` that end at or before a token boundary `≤ |a|` of the uncut
+    text (and, in full-sheet mode, do not change under end-of-input completion) ⊢
+    `sheetToks a = pre ++ post'` and `sheetToks (a ++ b) = pre ++ post`
+
+which is the tokenizer's cut property — proved by C05 in this round for the partial-sheet loop
+(`tokenize_cut`, `Lemmas/TokAppend.lean` on branch build3-C05: no separation predicate, the only hypothesis is
+`spans pre = a₁`); the bridge to full-sheet mode (the last item may be completed: `loop_full_prefix`) is open
+there.  Proved here: GIVEN that the two token lists share the prefix `pre`, every rule of the complete
+statements `s₁` inside `pre` is present, in order, unchanged (up to the URI of `@namespace` rules) in the DOM
+of the truncated text AND in the DOM of the full text. -/
+theorem text_truncation_partial (O : Oracle) (M : List Cps) (a b : Cps) (doC : Bool)
+    (pre post post' s₁ rest : List Tok)
+    (hfull : sheetToks (a ++ b) doC = pre ++ post) (hcut : sheetToks a doC = pre ++ post')
+    (hpre : pre = s₁ ++ rest) (hs : StmtSeq s₁) :
+    ∃ more more',
+      (sheetLoop O M {} (sheetToks (a ++ b) doC)).rules.map eraseUri =
+        (sheetLoop O M {} s₁).rules.map eraseUri ++ more ∧
+      (sheetLoop O M {} (sheetToks a doC)).rules.map eraseUri =
+        (sheetLoop O M {} s₁).rules.map eraseUri ++ more' := by
+  subst hpre
+  obtain ⟨m, hm⟩ := truncation_keeps_rules O M s₁ (rest ++ post) hs
+  obtain ⟨m', hm'⟩ := truncation_keeps_rules O M s₁ (rest ++ post') hs
+  refine ⟨m, m', ?_, ?_⟩
+  · rw [hfull, List.append_assoc]; exact hm
+  · rw [hcut, List.append_assoc]; exact hm'
+
+-- non-vacuity (a test, evaluated by the kernel): the text `a{}b{` is tokenized by the C05 model into
+-- IDENT CHAR CHAR IDENT CHAR EOF, i.e. the complete statement `a{}` and a style rule open at EOF
+example : (sheetToks (cps "a{}b{") true).map (fun t => (t.typ, t.val)) =
+    [(.ident, cps "a"), (.char, cps "{"), (.char, cps "}"), (.ident, cps "b"), (.char, cps "{"), (.eof, [])] := by
+  decide +kernel
 
 /-! ## the model's only fuel (nesting depth of `@media` in `@media`) never runs out -/
 
